@@ -36,6 +36,13 @@ def main():
         jobs = int(a[a.index('--jobs') + 1])
     if '--only' in a:
         only = a[a.index('--only') + 1]
+    cases = load_cases(None)
+    if only:
+        cases = [c for c in cases if only in c['patch'] or only == c['property']]
+    return run_all(cases, jobs)
+
+
+def load_cases(prop=None):
     cases = json.load(open(os.path.join(HERE, 'cases.json')))['cases']
     # the seeded changes written by independent sub-agents (seeded/<id>/patch.diff) are part of the suite: expectation = first rule that reports them
     sd = os.path.join(VERIF, 'seeded')
@@ -45,8 +52,12 @@ def main():
             m = json.load(open(mp))
             if m.get('reported_by') and m['reported_by'] != 'MISSED':
                 cases.append(dict(patch=os.path.join(sd, pid, 'patch.diff'), property=m['property'], expect='[' + m['reported_by'].split(',')[0] + ']'))
-    if only:
-        cases = [c for c in cases if only in c['patch'] or only == c['property']]
+    if prop:
+        cases = [c for c in cases if c['property'] == prop]
+    return cases
+
+
+def run_all(cases, jobs):
     bad = 0
     results = []
     with cf.ThreadPoolExecutor(max_workers=jobs) as ex:
